@@ -189,7 +189,7 @@ static void process_alu_2(
     snprintf(instruction, length, "%s%s%s %s, %s",
       table_arm[index].instr,
       arm_cond[ARM_NIB(28)],
-      (s == 1) ? "s" : "",
+      (s == 1 && use_d == 1) ? "s" : "",
       arm_reg[ARM_NIB(reg_offset)],
       opcode2);
   }
@@ -198,7 +198,7 @@ static void process_alu_2(
     snprintf(instruction, length, "%s%s%s %s, %s",
       table_arm[index].instr,
       arm_cond[ARM_NIB(28)],
-      (s == 1) ? "s" : "",
+      (s == 1 && use_d == 1) ? "s" : "",
       arm_reg[ARM_NIB(reg_offset)],
       opcode2);
   }
@@ -560,6 +560,9 @@ int disasm_arm(
           process_alu_3(instruction, length, opcode, n);
           return 4;
         case OP_ALU_2_N:
+          // tst, teq, cmp and cmn always set the flags; with the S bit clear
+          // the word is something else (mrs, msr, bx ... or undefined).
+          if (((opcode >> 20) & 1) == 0) { break; }
           process_alu_2(instruction, length, opcode, n, 0);
           return 4;
         case OP_ALU_2_D:
